@@ -91,3 +91,19 @@ pub fn send_body_call_cfg(cfg: &ReqCfg) -> Call<WithBody, ()> {
 pub fn cfg_own_host(framing: (&str, &str)) -> ReqCfg {
     ReqCfg::new("POST", "1.1", "http://a.test/p").orig("host", "own.test").orig(framing.0, framing.1)
 }
+
+/// POST (default chunked) whose caller kept calling `Flow::<SendRequest>::write` after the head was
+/// complete (a transport loop that writes "until 0 is returned"), with buffers of `buf` bytes.
+pub fn send_body_flow_extra_head_writes(buf: usize) -> Flow<(), SendBody> {
+    let cfg = ReqCfg::new("POST", "1.1", "http://a.test/p");
+    let mut f = cfg.build_prepare().expect("prepare").proceed();
+    crate::driver::write_whole_head(&mut f).expect("head");
+    let mut b = vec![0u8; buf];
+    for _ in 0..2 {
+        let _ = f.write(&mut b);
+    }
+    match AnyFlow::SendRequest(f).proceed() {
+        Ok(Some(AnyFlow::SendBody(f))) => f,
+        _ => panic!("harness: expected SendBody"),
+    }
+}
